@@ -29,7 +29,6 @@ theorem bind_eq_ok {α β} {a : Out α} {f : α → Out β} {r : β} (h : a.bind
 
 theorem np_addSeg {α} {a : Out α} (s : String) (ha : NP a) : NP (a.addSeg s) := by
   cases a <;> simp_all [NP, addSeg]
-  split <;> simp
 
 end Out
 
@@ -37,6 +36,12 @@ open Out
 
 theorem np_rewrapC {α} {a : Out α} (ha : NP a) : NP (rewrapC a) := by
   cases a <;> simp_all [rewrapC]
+
+theorem rewrapC_eq_ok {α} {a : Out α} {r : α} : rewrapC a = .ok r ↔ a = .ok r := by
+  cases a <;> simp [rewrapC, Out.cerr]
+
+theorem rewrapP_eq_ok {α} {a : Out α} {r : α} : rewrapP a = .ok r ↔ a = .ok r := by
+  cases a <;> simp [rewrapP, Out.plain]
 
 theorem np_rewrapP {α} {a : Out α} (ha : NP a) : NP (rewrapP a) := by
   cases a <;> simp_all [rewrapP]
